@@ -26,10 +26,38 @@ func (vm *VM) VerifGlobals() (vals []string, types []string) {
 			types = append(types, "")
 			continue
 		}
-		vals = append(vals, g.String())
+		vals = append(vals, verifRender(g))
 		types = append(types, g.Type().String())
 	}
 	return vals, types
+}
+
+// verifRender prints a VM value the way the print builtin of the
+// tree-walking evaluator prints it.
+func verifRender(v value) string {
+	switch x := v.(type) {
+	case arrayVal:
+		s := "["
+		for i, e := range x.Elements {
+			if i > 0 {
+				s += " "
+			}
+			s += verifRender(e)
+		}
+		return s + "]"
+	case mapVal:
+		s := "{"
+		for i, k := range x.order {
+			if i > 0 {
+				s += " "
+			}
+			s += string(k) + ":" + verifRender(x.m[k])
+		}
+		return s + "}"
+	case nil:
+		return "<nil>"
+	}
+	return v.String()
 }
 
 // VerifSymbols returns the slot index of every global variable name.
